@@ -8,21 +8,21 @@ import ParanoidModel.Proofs.Factoring
 namespace Paranoid
 
 /-- what C01 demands of a verdict for modulus `n`. -/
-def Verdict.Sound (n : Nat) (v : Verdict) : Prop :=
+def KeyVerdict.Sound (n : Nat) (v : KeyVerdict) : Prop :=
   v.factors = [] ∨ (v.weak = true ∧ ∃ x y, v.factors = [x, y] ∧ x * y = n)
 
 /-- the stronger form for gcd-derived factors: a proper split. -/
-def Verdict.SoundProper (n : Nat) (v : Verdict) : Prop :=
+def KeyVerdict.SoundProper (n : Nat) (v : KeyVerdict) : Prop :=
   v.factors = [] ∨ (v.weak = true ∧ ProperSplit n v.factors)
 
-theorem Verdict.SoundProper.sound {n v} (h : Verdict.SoundProper n v) : Verdict.Sound n v := by
+theorem KeyVerdict.SoundProper.sound {n v} (h : KeyVerdict.SoundProper n v) : KeyVerdict.Sound n v := by
   rcases h with h | ⟨hw, hp⟩
   · exact Or.inl h
   · exact Or.inr ⟨hw, hp.prod⟩
 
-theorem Verdict.pass_sound (n : Nat) : Verdict.SoundProper n Verdict.pass := Or.inl rfl
+theorem KeyVerdict.pass_sound (n : Nat) : KeyVerdict.SoundProper n KeyVerdict.pass := Or.inl rfl
 
-theorem Verdict.Sound.all_dvd {n v} (h : Verdict.Sound n v) : ∀ f ∈ v.factors, f ∣ n := by
+theorem KeyVerdict.Sound.all_dvd {n v} (h : KeyVerdict.Sound n v) : ∀ f ∈ v.factors, f ∣ n := by
   rcases h with h | ⟨_, x, y, hf, rfl⟩
   · rw [h]; simp
   · rw [hf]
@@ -39,7 +39,7 @@ theorem vFermat_sound (n maxSteps : Nat) : (vFermat n maxSteps).Sound n := by
     exact Or.inr ⟨rfl, p, q, rfl, fermatFactor_sound n maxSteps p q h⟩
   · exact Or.inl rfl
 
-theorem vHlbe_sound (n mb : Nat) (v : Verdict) (h : vHlbe n mb = .ok v) : v.Sound n := by
+theorem vHlbe_sound (n mb : Nat) (v : KeyVerdict) (h : vHlbe n mb = .ok v) : v.Sound n := by
   unfold vHlbe at h
   split at h
   · simp at h
@@ -51,7 +51,7 @@ theorem vHlbe_sound (n mb : Nat) (v : Verdict) (h : vHlbe n mb = .ok v) : v.Soun
     subst h
     exact Or.inl rfl
 
-theorem vCf_sound (n bound : Nat) (v : Verdict) (h : vCf n bound = .ok v) : v.SoundProper n := by
+theorem vCf_sound (n bound : Nat) (v : KeyVerdict) (h : vCf n bound = .ok v) : v.SoundProper n := by
   unfold vCf at h
   split at h
   · simp at h
@@ -66,7 +66,7 @@ theorem vCf_sound (n bound : Nat) (v : Verdict) (h : vCf n bound = .ok v) : v.So
       · exact Or.inr ⟨rfl, h2⟩
 
 theorem bitPatternsLoop_sound (n maxPs : Nat) (red : Nat → List (List Int)) :
-    ∀ (l : List Nat) (v : Verdict), bitPatternsLoop n maxPs red l = .ok v → v.SoundProper n
+    ∀ (l : List Nat) (v : KeyVerdict), bitPatternsLoop n maxPs red l = .ok v → v.SoundProper n
   | [], v, h => by
     simp only [bitPatternsLoop, Except.ok.injEq] at h
     subst h; exact Or.inl rfl
@@ -85,7 +85,7 @@ theorem bitPatternsLoop_sound (n maxPs : Nat) (red : Nat → List (List Int)) :
       · exact bitPatternsLoop_sound n maxPs red rest v h
 
 theorem permutedInner_sound (n maxD wsize : Nat) (red : Nat → List (List Int)) :
-    ∀ (l : List Nat) (v : Verdict), permutedInner n maxD wsize red l = .ok (some v) →
+    ∀ (l : List Nat) (v : KeyVerdict), permutedInner n maxD wsize red l = .ok (some v) →
       v.SoundProper n
   | [], v, h => by simp [permutedInner] at h
   | ps :: rest, v, h => by
@@ -104,7 +104,7 @@ theorem permutedInner_sound (n maxD wsize : Nat) (red : Nat → List (List Int))
       · exact permutedInner_sound n maxD wsize red rest v h
 
 theorem permutedOuter_sound (n maxD : Nat) (red : Nat → List (List Int)) :
-    ∀ (l : List Nat) (v : Verdict), permutedOuter n maxD red l = .ok v → v.SoundProper n
+    ∀ (l : List Nat) (v : KeyVerdict), permutedOuter n maxD red l = .ok v → v.SoundProper n
   | [], v, h => by
     simp only [permutedOuter, Except.ok.injEq] at h
     subst h; exact Or.inl rfl
@@ -150,7 +150,7 @@ theorem vLhw_sound (n cutoff maxsteps : Nat) : (vLhw n cutoff maxsteps).Sound n 
     · exact Or.inr ⟨rfl, h⟩
   · exact Or.inl rfl
 
-theorem vSud_sound (n cbrt : Nat) (v : Verdict) (h : vSud n cbrt = .ok v) : v.SoundProper n := by
+theorem vSud_sound (n cbrt : Nat) (v : KeyVerdict) (h : vSud n cbrt = .ok v) : v.SoundProper n := by
   unfold vSud at h
   split at h
   · simp at h
@@ -166,7 +166,7 @@ theorem vSud_sound (n cbrt : Nat) (v : Verdict) (h : vSud n cbrt = .ok v) : v.So
   · simp only [Except.ok.injEq] at h
     subst h; exact Or.inl rfl
 
-theorem unseededLoop_sound (n cbrt : Nat) : ∀ (l : List Nat) (v : Verdict),
+theorem unseededLoop_sound (n cbrt : Nat) : ∀ (l : List Nat) (v : KeyVerdict),
     unseededLoop n cbrt l = .ok v → v.SoundProper n
   | [], v, h => by
     simp only [unseededLoop, Except.ok.injEq] at h
